@@ -9,6 +9,8 @@ import PyodaProofs.C07TextInstances
 import PyodaProofs.C07Duration
 import PyodaProofs.C07Segmented
 import PyodaProofs.C07SegmentedInstances
+import PyodaProofs.C07Calendar
+import PyodaProofs.C07Instant
 
 #print axioms Pyoda.C07.parseDigits_leftPad
 #print axioms Pyoda.C07.parseDigits_pad2
@@ -106,3 +108,19 @@ import PyodaProofs.C07SegmentedInstances
 #print axioms Pyoda.C07.embedded_compiles
 #print axioms Pyoda.C07.embedded_delimited
 #print axioms Pyoda.C07.embedded_generic_roundtrip
+#print axioms Pyoda.C07.eraC_roundtrip
+#print axioms Pyoda.C07.matchText_diverge
+#print axioms Pyoda.C07.parseCalendarId_of_diverge
+#print axioms Pyoda.C07.calIdOK_all
+#print axioms Pyoda.C07.fullDate_compiles
+#print axioms Pyoda.C07.fullDate_delimited
+#print axioms Pyoda.C07.calendar_years_four_digits
+#print axioms Pyoda.C07.fullDate_generic_roundtrip
+#print axioms Pyoda.C07.validDate_of_validate
+#print axioms Pyoda.C07.instantFields_spec
+#print axioms Pyoda.C07.daysOfDate_spec
+#print axioms Pyoda.C07.instant_adapter_roundtrip
+#print axioms Pyoda.C07.isoInstant_compiles
+#print axioms Pyoda.C07.isoInstant_delimited
+#print axioms Pyoda.C07.isoInstantPattern_roundtrip
+#print axioms Pyoda.C07.isoInstant_generic_roundtrip
